@@ -121,7 +121,10 @@ func (nfc *NestedFieldCache) prefixMatch(prefix string, fieldPaths search.FieldS
 	common = true
 	any = false
 	for path := range fieldPaths {
-		has := strings.HasPrefix(path, prefix)
+		// the prefix must end at a path component boundary: "a" is a prefix of
+		// "a" and "a.b", but not of "ab" or "ab.c"
+		has := strings.HasPrefix(path, prefix) &&
+			(len(path) == len(prefix) || path[len(prefix)] == '.')
 		if has {
 			any = true
 		} else {
